@@ -84,6 +84,7 @@ type Analysis struct {
 	lt      *LitTable
 	in      map[Node]*CNF
 	ns      map[Node]*nodeState
+	backPre map[edgeKey]*CNF // state on a back edge before the loop kill
 	visits  map[Node]int
 	work    []Node
 	queued  map[Node]bool
@@ -894,6 +895,10 @@ func (a *Analysis) edge(ctx *Ctx, from, to *ssa.BasicBlock, st *CNF) {
 	st = st.clone()
 	back := to.Dominates(from)
 	if back {
+		if a.backPre == nil {
+			a.backPre = map[edgeKey]*CNF{}
+		}
+		a.backPre[edgeKey{ctx, from, to}] = st.clone()
 		// kill facts about values defined inside the loop (this frame's blocks
 		// dominated by the header, and every frame called from them)
 		st.kill(func(l int32) bool {
@@ -1139,6 +1144,84 @@ func (a *Analysis) reachAvoiding(from *Site, target func(*Site) bool, avoid []*S
 				seen[nx] = true
 				work = append(work, pos{nx, nx.idx})
 			}
+		}
+	}
+	return nil
+}
+
+type edgeKey struct {
+	ctx      *Ctx
+	from, to *ssa.BasicBlock
+}
+
+// edgeState: the state that flows along from→to in frame ctx at the fixpoint
+// (for a back edge: before the facts about loop-variant values are dropped);
+// nil when the edge was never taken.
+func (a *Analysis) edgeState(ctx *Ctx, from, to *ssa.BasicBlock) *CNF {
+	if to.Dominates(from) {
+		return a.backPre[edgeKey{ctx, from, to}]
+	}
+	if ns := a.ns[Node{ctx, to, 0}]; ns != nil {
+		return ns.preds[from]
+	}
+	return nil
+}
+
+type skipEdge struct {
+	From, To *ssa.BasicBlock
+	St       *CNF
+}
+
+// skipEdges: the feasible edges of frame ctx that leave the region from which
+// block target can still be reached (without passing through a stop block)
+// towards a block from which it cannot, not counting edges into a block that
+// only panics. They are exactly the ways to go round target.
+func (a *Analysis) skipEdges(ctx *Ctx, target *ssa.BasicBlock, stop func(*ssa.BasicBlock) bool) []skipEdge {
+	reach := map[*ssa.BasicBlock]bool{target: true}
+	work := []*ssa.BasicBlock{target}
+	for len(work) > 0 {
+		b := work[len(work)-1]
+		work = work[:len(work)-1]
+		if stop != nil && stop(b) && b != target {
+			continue
+		}
+		for _, p := range b.Preds {
+			if !reach[p] {
+				reach[p] = true
+				work = append(work, p)
+			}
+		}
+	}
+	var out []skipEdge
+	for _, b := range ctx.fn.Blocks {
+		if !reach[b] || b == target || stop != nil && stop(b) {
+			continue
+		}
+		for _, s := range b.Succs {
+			if reach[s] && !(stop != nil && stop(s)) || s == target {
+				continue
+			}
+			if _, isPanic := s.Instrs[len(s.Instrs)-1].(*ssa.Panic); isPanic {
+				continue
+			}
+			if st := a.edgeState(ctx, b, s); st != nil && !st.bottom {
+				out = append(out, skipEdge{b, s, st})
+			}
+		}
+	}
+	return out
+}
+
+// frameBlock: the block of frame k (an ancestor-or-self of the site's frame)
+// in which the site is reached: the site's own block, or the block of the call
+// that leads to it.
+func frameBlock(s *Site, k *Ctx) *ssa.BasicBlock {
+	if s.Ctx == k {
+		return s.Instr.Block()
+	}
+	for c := s.Ctx; c != nil && c.parent != nil; c = c.parent {
+		if c.parent == k && c.cont != nil {
+			return c.cont.Block()
 		}
 	}
 	return nil
